@@ -59,6 +59,7 @@ STRUCT = {
     "REGEX-ANCHOR": RX.rule_regex_anchor,
     "READER-SIB": RI.rule_reader_sib,
     "SPAN-PROV": RI.rule_span_prov,
+    "SPAN-EMPTY": RI.rule_span_empty,
     "STREAM": RI.rule_stream,
     "INPUT-MISC": RI.rule_input_misc,
 }
@@ -70,9 +71,9 @@ PROP_RULES = {
     "C03": ["ENTRY", "K", "STREAM", "D:POISON", "MODE-PURE", "GRAMMAR", "ENTRY-SIB", "SUB-INPUT", "D:KEEP*", "HOOKS-WRITERS", "INPUT-MISC", "MODE-PAIR"],
     "C04": ["MODE-PAIR", "MODE-PURE", "K", "D:POISON", "ENTRY-SIB"],
     "C05": ["D:POISON", "D:KEEP", "D:LIFO", "HOOKS-SAVE-REWIND", "HOOKS-WRITERS", "MODE-PURE", "SUB-INPUT", "K", "MODE-PAIR", "NO-BACKTRACK"],
-    "C07": ["K", "SPAN-PROV", "READER-SIB", "INPUT-MISC", "GRAMMAR"],
-    "C10": ["READER-SIB", "SPAN-PROV", "STREAM", "INPUT-MISC", "CHAR-SIB", "CHAR-PROV", "GRAMMAR"],
-    "C06": ["D:ALT-LINEAR", "D:ALT-POS", "D:PFAIL", "ORDER-ARMS", "ERR-SPAN", "MERGE-ARMS", "ENTRY", "K", "READER-SIB", "SPAN-PROV", "MODE-PAIR", "ERR-PROV"],
+    "C07": ["K", "SPAN-PROV", "SPAN-EMPTY", "READER-SIB", "INPUT-MISC", "GRAMMAR"],
+    "C10": ["READER-SIB", "SPAN-PROV", "SPAN-EMPTY", "STREAM", "INPUT-MISC", "CHAR-SIB", "CHAR-PROV", "GRAMMAR"],
+    "C06": ["D:ALT-LINEAR", "D:ALT-POS", "D:PFAIL", "ORDER-ARMS", "ERR-SPAN", "MERGE-ARMS", "ENTRY", "K", "READER-SIB", "SPAN-PROV", "SPAN-EMPTY", "MODE-PAIR", "ERR-PROV"],
     "C08": ["K", "D:POISON", "D:ALT-LINEAR", "D:PFAIL", "MODE-PURE", "SUB-INPUT", "GRAMMAR", "D:KEEP*", "D:LIFO*", "HOOKS-SAVE-REWIND", "MODE-PAIR", "NO-BACKTRACK"],
     "C09": ["K", "D:POISON", "RECURSE", "AFFINE", "GRAMMAR", "MODE-PAIR"],
     "C11": ["K", "D:ALT-LINEAR", "D:ALT-POS", "D:PFAIL", "MEMO-KEY", "MEMO-WRITERS", "GRAMMAR", "MODE-PAIR", "NO-BACKTRACK"],
@@ -80,7 +81,7 @@ PROP_RULES = {
     "C13": ["FREEZE", "STATICS", "OWN-STATE", "CLONE-FIELDS", "MODE-PAIR", "K", "NO-BACKTRACK"],
     "C14": ["CHAR-SIB", "CHAR-PROV", "REGEX-ANCHOR", "K", "HOOKS-TOKEN", "SEQ-PROV", "MODE-PURE", "GRAMMAR"],
     "C15": ["K", "SUB-INPUT", "MODE-PAIR", "BUILDER-PROV", "GRAMMAR"],
-    "C16": ["K", "SUB-INPUT", "D:ALT-LINEAR", "D:PFAIL", "SPAN-PROV", "READER-SIB", "GRAMMAR", "MODE-PAIR"],
+    "C16": ["K", "SUB-INPUT", "D:ALT-LINEAR", "D:PFAIL", "SPAN-PROV", "SPAN-EMPTY", "READER-SIB", "GRAMMAR", "MODE-PAIR"],
     "C17": ["K", "D:ALT-LINEAR", "D:ALT-POS", "ERR-SPAN", "MODE-PAIR", "GRAMMAR", "ERR-PROV", "NO-BACKTRACK"],
     "C18": ["HOOKS-WRITERS", "HOOKS-TOKEN", "HOOKS-SAVE-REWIND", "SUB-INPUT", "D:POISON", "D:KEEP", "K", "GRAMMAR", "MODE-PAIR", "NO-BACKTRACK"],
     "C19": ["UNSAFE-INV", "MAYBEUNINIT", "CONTAINER-PROV"],
